@@ -57,5 +57,6 @@ PROPS = {
     "C08": {"engines": ["dns"], "rule_prefixes": ["c08-", "task-panic"]},
     "C09": {"engines": ["dns"], "rule_prefixes": ["c09-", "task-panic"]},
     "C10": {"engines": ["dns"], "rule_prefixes": ["c10-", "task-panic"]},
-    "C18": {"engines": ["dns"], "rule_prefixes": ["c18-", "task-panic"]},
+    # the relay engine observes what the node dialer of a re-routed flow receives (routeDial/chooseProxyDialer)
+    "C18": {"engines": ["dns", "relay"], "rule_prefixes": ["c18-", "task-panic"]},
 }
